@@ -68,6 +68,7 @@ class RunContext:
         self.pred_hook = pred_hook  # callable(kind, order, r1, r2, slack, result, faulted)
         self.solves = 0
         self.hyper = None  # hyper-parameters for the stubbed fit
+        self.last_status = None
 
 
 CTX: Optional[RunContext] = None
@@ -103,6 +104,7 @@ def _solve_wrapper(self, *args, **kwargs):
     ctx.solves += 1
     val = _ORIG_SOLVE(self, *args, **kwargs)
     ctx.probes["status:" + str(self.status) + ("" if primary else ":fallback")] += 1
+    ctx.last_status = str(self.status)
     return val
 
 
@@ -131,6 +133,7 @@ def _make_pred_wrapper(kind: str):
         ctx.probes["pred_calls:" + kind] += 1
         if ctx.pred_hook is not None:
             ctx.pred_hook(kind, order, region1, region2, rest[0] if rest else None, res, faulted)
+        ctx.last_status = None
         return res
 
     wrapper.__name__ = "sim_confidence_region_" + kind
